@@ -3,6 +3,7 @@ package main
 import (
 	"fmt"
 	"math/rand"
+	"reflect"
 
 	"github.com/Comcast/gots/v2/packet"
 )
@@ -160,6 +161,7 @@ func (c02) Exec(h []Ev) []Ev {
 			e["before"] = B(prev)
 		}
 		prev = nil
+		e["opts_list_same"] = true
 		e["panic"] = guard(func() {
 			switch GS(e["op"]) {
 			case "parts":
@@ -216,7 +218,19 @@ func (c02) Exec(h []Ev) []Ev {
 					if o&4 != 0 {
 						opts = append(opts, packet.WithHasAdaptationFieldFlag)
 					}
-					p = packet.Create(pid, opts...)
+					// the option list is handed over as a prefix of a longer list (spare capacity behind it, as when a
+					// caller keeps one list and uses prefixes of it): the entries behind the prefix must stay as they are
+					full := append(append(make([]func(*packet.Packet), 0, len(opts)+3), opts...), packet.WithPUSI, packet.WithHasPayloadFlag, packet.WithHasAdaptationFieldFlag)
+					tail := func() string {
+						t := ""
+						for _, f := range full[len(opts):] {
+							t += fmt.Sprint(reflect.ValueOf(f).Pointer(), ";")
+						}
+						return t
+					}
+					before := tail()
+					p = packet.Create(pid, full[:len(opts)]...)
+					e["opts_list_same"] = tail() == before
 				case "CreateTestPacket":
 					p = packet.CreateTestPacket(pid, cc, GBool(e["pusi"]), GBool(e["haspay"]))
 				case "CreateDCPacket":
